@@ -209,6 +209,11 @@ static std::size_t csvRecordCount(std::string const& bytes, char comment){
 		}
 		if(inComment) continue;
 		if(c == comment){ inComment = true; continue; }
+		// spirit's `nan(...)` payload runs to the next ')' whatever is in between (line breaks included)
+		if((c == 'n' || c == 'N') && i + 3 < bytes.size() && (bytes[i+1] | 32) == 'a' && (bytes[i+2] | 32) == 'n' && bytes[i+3] == '('){
+			std::size_t close = bytes.find(')', i + 4);
+			if(close != std::string::npos){ content = true; i = close; continue; }
+		}
 		if(c != ' ' && c != '\t' && c != '\v' && c != '\f') content = true;
 	}
 	return n;
